@@ -2,6 +2,7 @@ import Gtree.Generated.Source
 import Gtree.Lemmas.GoStrings
 import Gtree.Model.Parser
 import Gtree.Model.Split
+import Gtree.Model.Spread
 /-
   The definitions translated from /repo's sources (`Generated/Source.lean`, regenerated on every run)
   compute what the hand-written model computes: the line parser (`Parser.Parse` and its helpers), the
@@ -385,5 +386,137 @@ theorem handleErr_src (g : Src.nodeGenerator) (row : Bytes) :
     Src.nodeGenerator.handleErr g (some (errSrc .incorrect)) row = gerrSrc (.format row) ∧
     Src.nodeGenerator.handleErr g (some (errSrc .blank)) row = none := by
   refine ⟨rfl, rfl, rfl⟩
+
+
+/-! ### The node helpers of node.go and file_considerer.go -/
+
+mutual
+/-- the Go node (downwards: name, hierarchy, children) that a model tree at hierarchy `h` stands for;
+    `index` and the cached `brnch` are whatever they are — the translated functions do not read them -/
+def toNode (h : Nat) : T → Src.Node
+  | .mk n ks => { name := n, hierarchy := (h : Int), index := 0, brnch := ⟨[], []⟩, children := toNodes (h + 1) ks }
+def toNodes (h : Nat) : List T → List Src.Node
+  | [] => []
+  | t :: ts => toNode h t :: toNodes h ts
+end
+
+theorem toNodes_length (h : Nat) : ∀ ks : List T, (toNodes h ks).length = ks.length
+  | [] => by simp [toNodes]
+  | t :: ts => by simp [toNodes, toNodes_length h ts]
+
+theorem toNode_name (h : Nat) (t : T) : (toNode h t).name = t.name := by
+  cases t with
+  | mk n ks => simp [toNode, T.name]
+
+/-- `Node.hasChild` -/
+theorem hasChild_src (h : Nat) (n : Bytes) (ks : List T) : Src.Node.hasChild (toNode h (.mk n ks)) = !ks.isEmpty := by
+  simp only [Src.Node.hasChild, toNode, len, toNodes_length]
+  cases ks with
+  | nil => simp
+  | cons k ks' =>
+    simp only [List.length_cons, List.isEmpty_cons, Bool.not_false, decide_eq_true_eq]
+    have : (0 : Int) < ((ks'.length + 1 : Nat) : Int) := by omega
+    exact this
+
+/-- `Node.isRoot`: hierarchy 1 -/
+theorem isRoot_src (h : Nat) (t : T) : Src.Node.isRoot (toNode h t) = (h == 1) := by
+  cases t with
+  | mk n ks =>
+    simp only [Src.Node.isRoot, toNode, Src.rootHierarchyNum]
+    by_cases hh : h = 1
+    · subst hh; rfl
+    · have a : (h == 1) = false := by simpa using hh
+      have b : (((h : Nat) : Int) == 1) = false := by
+        simp only [beq_eq_false_iff_ne, ne_eq]; omega
+      rw [a, b]
+
+theorem forRange_find_ret {α ρ : Type} (p : α → Bool) (g : α → ρ) : ∀ (xs : List α),
+    forRange xs () (fun x (st_ : Unit) => if p x then (Ctl.ret (g x) : Ctl Unit ρ) else Ctl.next st_) =
+      match xs.find? p with
+      | some x => Ctl.ret (g x)
+      | none => Ctl.next ()
+  | [] => rfl
+  | x :: xs => by
+    simp only [forRange, List.find?_cons]
+    by_cases hp : p x = true
+    · simp [hp]
+    · have : p x = false := by simpa using hp
+      simp only [this, Bool.false_eq_true, if_false]
+      exact forRange_find_ret p g xs
+
+/-- **`fileConsiderer.isFile` of file_considerer.go is the model's `isFileNode`**: a node is created as a file
+    iff it has no children and its name ends with one of the configured extensions. -/
+theorem isFile_src (exts : List Bytes) (h : Nat) (n : Bytes) (ks : List T) :
+    Src.fileConsiderer.isFile ⟨exts⟩ (toNode h (.mk n ks)) = isFileNode exts n (!ks.isEmpty) := by
+  unfold Src.fileConsiderer.isFile isFileNode
+  rw [hasChild_src]
+  by_cases hk : (!ks.isEmpty) = true
+  · simp [hk]
+  · have hk' : (!ks.isEmpty) = false := by simpa using hk
+    simp only [hk', Bool.false_eq_true, if_false, Bool.not_false, Bool.true_and]
+    have hname : (toNode h (T.mk n ks)).name = n := by simp [toNode]
+    have := forRange_find_ret (fun e => strings_HasSuffix (toNode h (T.mk n ks)).name e) (fun _ => true) exts
+    rw [this, hname]
+    simp only [strings_HasSuffix, hasSuffix]
+    cases hf : exts.find? (fun e => e.isSuffixOf n) with
+    | some e =>
+      have := List.find?_some hf
+      have hm := List.mem_of_find?_eq_some hf
+      simp only
+      symm
+      rw [List.any_eq_true]
+      exact ⟨e, hm, this⟩
+    | none =>
+      simp only
+      symm
+      rw [List.any_eq_false]
+      intro e he
+      have := List.find?_eq_none.mp hf e he
+      simpa using this
+
+theorem toNodes_find (h : Nat) (x : Bytes) : ∀ ks : List T,
+    (toNodes h ks).find? (fun c => x == c.name) = (ks.find? (fun k => x == k.name)).map (toNode h)
+  | [] => by simp [toNodes]
+  | k :: ks => by
+    simp only [toNodes, List.find?_cons, toNode_name]
+    by_cases hx : (x == k.name) = true
+    · simp [hx]
+    · have : (x == k.name) = false := by simpa using hx
+      simp only [this]
+      exact toNodes_find h x ks
+
+/-- **`Node.findChildByText` of node.go**: the first child with that name (the child the builder re-opens when a
+    row repeats a sibling's name — the model's `splitAtName`), or nil. -/
+theorem findChildByText_src (h : Nat) (n x : Bytes) (ks : List T) :
+    Src.Node.findChildByText (toNode h (.mk n ks)) x = (ks.find? (fun k => x == k.name)).map (toNode (h + 1)) := by
+  unfold Src.Node.findChildByText
+  have := forRange_find_ret (fun (c : Src.Node) => x == c.name) (fun c => some c) (toNode h (.mk n ks)).children
+  rw [this]
+  simp only [toNode, toNodes_find]
+  cases ks.find? (fun k => x == k.name) <;> rfl
+
+
+theorem splitAtName_find (x : Bytes) : ∀ ks : List T,
+    (splitAtName x ks).map (fun p => p.2.1) = ks.find? (fun k => x == k.name)
+  | [] => by simp [splitAtName]
+  | k :: ks => by
+    simp only [splitAtName, List.find?_cons]
+    by_cases hx : k.name = x
+    · have a : (k.name == x) = true := by simpa using hx
+      have b : (x == k.name) = true := by simpa using hx.symm
+      simp [a, b]
+    · have a : (k.name == x) = false := by simpa using hx
+      have b : (x == k.name) = false := by
+        simp only [beq_eq_false_iff_ne, ne_eq]; exact fun e => hx e.symm
+      simp only [a, b, Bool.false_eq_true, if_false]
+      rw [← splitAtName_find x ks]
+      cases splitAtName x ks with
+      | none => rfl
+      | some p => obtain ⟨l, c, r⟩ := p; rfl
+
+/-- the child the model's builder re-opens (`descend` via `splitAtName`) is the child `findChildByText` returns -/
+theorem findChildByText_is_splitAtName (h : Nat) (n x : Bytes) (ks : List T) :
+    Src.Node.findChildByText (toNode h (.mk n ks)) x = ((splitAtName x ks).map (fun p => p.2.1)).map (toNode (h + 1)) := by
+  rw [findChildByText_src, splitAtName_find]
 
 end Gtree
